@@ -63,7 +63,7 @@ def events_shape(draw, lo, hi, q, max_n=10):
 
 
 BEAT_KW = {"f_measure_threshold": st.sampled_from([0.07, 0.05, 0.1, 0.0625]), "cemgil_sigma": st.sampled_from([0.04, 0.02, 0.1]),
-           "goto_threshold": st.sampled_from([0.35, 0.25, 0.5]), "goto_mu": st.sampled_from([0.2, 0.1]), "goto_sigma": st.sampled_from([0.2, 0.3]),
+           "goto_threshold": st.sampled_from([0.35, 0.25, 0.5]), "goto_mu": st.sampled_from([0.2, 0.1, 0.05, 0.3]), "goto_sigma": st.sampled_from([0.2, 0.3, 0.05, 0.1]),
            "p_score_threshold": st.sampled_from([0.2, 0.1, 0.5]), "continuity_phase_threshold": st.sampled_from([0.175, 0.25]),
            "continuity_period_threshold": st.sampled_from([0.175, 0.1]), "bins": st.sampled_from([41, 21, 11, 40, 2, 4, 10, 3]),
            "min_beat_time": st.sampled_from([5.0, 0.0, 2.5])}
